@@ -2200,9 +2200,6 @@ func (a *Association) handleInitAck(pkt *packet, initChunkAck *chunkInitAck) err
 	a.log.Tracef("[%s] updated cwnd=%d ssthresh=%d inflight=%d (INI)",
 		a.name, a.CWND(), a.ssthresh, a.inflightQueue.getNumBytes())
 
-	a.t1Init.stop()
-	a.storedInit = nil
-
 	a.peerInterleaving = false
 	a.peerForwardTSN = false
 	a.peerIForwardTSN = false
@@ -2238,8 +2235,13 @@ func (a *Association) handleInitAck(pkt *packet, initChunkAck *chunkInitAck) err
 		a.log.Warnf("[%s] not using ForwardTSN (on initAck)", a.name)
 	}
 	if cookieParam == nil {
+		// T1-init keeps running: the INIT is retransmitted and the handshake
+		// either gets a usable INIT ACK or fails after the last retransmission.
 		return ErrInitAckNoCookie
 	}
+
+	a.t1Init.stop()
+	a.storedInit = nil
 
 	a.storedCookieEcho = &chunkCookieEcho{}
 	a.storedCookieEcho.cookie = cookieParam.cookie
